@@ -289,3 +289,12 @@ _amend('C20', 'Memory clause (out-of-bounds / misaligned access, strict aliasing
        'aliasing violations other than through the listed intrinsics. Known finding: make_matCx3 under GLM_FORCE_DEFAULT_ALIGNED_GENTYPES reads C * 4 elements. Six defects found by the memory rules were repaired (out-of-bounds reads in the dvec3 conversion, packHalf / unpackHalf<3>, make_vec3; '
        'strict-aliasing violations in the vec3 conversions, which g++ -O2 miscompiled).')
 CHECKS['C20']['technique'] = CHECKS['C20']['technique'] + '; object-bounds / alignment / typed-access analysis of constant-offset memory accesses on inlined unoptimised LLVM IR (irtool --memcheck)'
+_amend('C01', 'Float lanes whose terms differ are refuted when the two derived terms, evaluated by the concrete term evaluator at float bit patterns (integers, ties, signed zeros, extreme magnitudes), return different values.')
+_amend('C02', 'The same definitions are checked for the aligned float matrix types of the SSE2 configuration (AVX2, double, int and mediump in the thorough tier): simd/matrix.h and func_matrix_simd.inl have their own product / transpose / outerProduct code.')
+_amend('C06', 'A decoder whose shape is not recognised is evaluated (derived term) at the boundary codes of its field and refuted when a code does not decode to code / S (clamped for snorm).')
+_amend('C09', 'A definition comparison that ends in different sin / cos / inverse / sqrt normal forms is refuted with a rational witness (independent angles as rational points of the unit circle).')
+_amend('C11', 'iround / uround must convert round(x) with the conversion of their own signedness.')
+_amend('C13', 'A spherical-arm guard whose only bound on cos(theta) admits cos(theta) = 1 is refuted (sin(0) / sin(0) for x == y).')
+_amend('C16', 'One is_same fact per typedef that gtc/type_aligned.hpp declares (names enumerated from the header): storage, precision, element type and shape spelled by the name.')
+_amend('C18', 'floor / prev / roundPowerOfTwo are analysed for 8-, 16-, 32- and 64-bit types in every tier; a result term that is not 1 << findMSB(x) is refuted with the witness x = 2^j + 1.')
+_amend('C19', 'A division by zero on the evaluated path of an HSV round-trip case is refuted when the derived terms, evaluated at the sample colour of the case, do not return it.')
